@@ -26,8 +26,11 @@ CONSTANTS VLanes, Remotes
 Rec == ndJsonDeserialize(IOEnv.TRACE)
 
 VARIABLES i, H, open, pend, lastPos, lastV, hasV, changed, synced, alive,
-          win, adm          \* C03: an unanswered sync request; values admissible at synced
-vars == <<i, H, open, pend, lastPos, lastV, hasV, changed, synced, alive, win, adm>>
+          win, adm,         \* C03: an unanswered sync request; values admissible at synced
+          unl,              \* an unlink request was sent since the link was opened
+          nmin              \* a link / sync request was sent after that unlink request while the old link was still
+                            \* open in the log (its unlinked frame not read yet): position of H then (0 = none)
+vars == <<i, H, open, pend, lastPos, lastV, hasV, changed, synced, alive, win, adm, unl, nmin>>
 
 Has(e, f) == f \in DOMAIN e
 Max(a, b) == IF a > b THEN a ELSE b
@@ -38,7 +41,7 @@ InitState(vals) ==
     /\ H = [l \in VLanes |-> <<vals[l]>>]
     /\ open = RL(FALSE) /\ pend = RL(FALSE) /\ lastPos = RL(1) /\ lastV = RL(0) /\ hasV = RL(FALSE)
     /\ changed = RL(FALSE) /\ synced = RL(FALSE) /\ alive = [r \in Remotes |-> TRUE]
-    /\ win = RL(0) /\ adm = RL({})
+    /\ win = RL(0) /\ adm = RL({}) /\ unl = RL(FALSE) /\ nmin = RL(0)
 
 TraceInit == i = 1 /\ InitState([l \in VLanes |-> 0]) /\ TLCSet(1, 1)
 
@@ -46,7 +49,7 @@ ResetTo(vals) ==
     /\ H' = [l \in VLanes |-> <<vals[l]>>]
     /\ open' = RL(FALSE) /\ pend' = RL(FALSE) /\ lastPos' = RL(1) /\ lastV' = RL(0) /\ hasV' = RL(FALSE)
     /\ changed' = RL(FALSE) /\ synced' = RL(FALSE) /\ alive' = [r \in Remotes |-> TRUE]
-    /\ win' = RL(0) /\ adm' = RL({})
+    /\ win' = RL(0) /\ adm' = RL({}) /\ unl' = RL(FALSE) /\ nmin' = RL(0)
 
 \* earliest position p >= from with H[l][p] = v (0 if none)
 Match(l, from, v) ==
@@ -62,7 +65,7 @@ Step(e) ==
                         IF l = e.lane /\ open[r][l] THEN TRUE ELSE changed[r][l]]]
        /\ adm' = [r \in Remotes |-> [l \in VLanes |->
                         IF l = e.lane /\ win[r][l] > 0 THEN adm[r][l] \cup {e.v} ELSE adm[r][l]]]
-       /\ UNCHANGED <<open, pend, lastPos, lastV, hasV, synced, alive, win>>
+       /\ UNCHANGED <<open, pend, lastPos, lastV, hasV, synced, alive, win, unl, nmin>>
     \/ /\ e.e = "req" /\ e.lane \in VLanes /\ e.op \in {"link", "sync"}
        /\ LET r == e.r  l == e.lane  fresh == ~open[r][l] /\ ~pend[r][l] IN
           /\ pend' = [pend EXCEPT ![r][l] = TRUE]
@@ -74,24 +77,28 @@ Step(e) ==
                THEN /\ win' = [win EXCEPT ![r][l] = @ + 1]
                     /\ adm' = [adm EXCEPT ![r][l] = IF win[r][l] = 0 THEN {Cur(l)} ELSE @]
                ELSE UNCHANGED <<win, adm>>
-       /\ UNCHANGED <<H, open, lastV, alive>>
+          \* a request sent after an unlink request, while the old link is still open in the log, starts the
+          \* NEXT episode: remember where the lane was
+          /\ nmin' = IF open[r][l] /\ unl[r][l] /\ nmin[r][l] = 0 THEN [nmin EXCEPT ![r][l] = Len(H[l])] ELSE nmin
+       /\ UNCHANGED <<H, open, lastV, alive, unl>>
     \/ /\ e.e = "req" /\ e.lane \in VLanes /\ e.op = "unlink"
-       /\ UNCHANGED <<H, open, pend, lastPos, lastV, hasV, changed, synced, alive, win, adm>>
+       /\ unl' = [unl EXCEPT ![e.r][e.lane] = TRUE]
+       /\ UNCHANGED <<H, open, pend, lastPos, lastV, hasV, changed, synced, alive, win, adm, nmin>>
     \/ /\ e.e = "frame" /\ e.lane \in VLanes /\ e.kind = "linked"
        /\ open' = [open EXCEPT ![e.r][e.lane] = TRUE]
        /\ changed' = IF open[e.r][e.lane] THEN changed ELSE [changed EXCEPT ![e.r][e.lane] = FALSE]
-       /\ UNCHANGED <<H, pend, lastPos, lastV, hasV, synced, alive, win, adm>>
+       /\ UNCHANGED <<H, pend, lastPos, lastV, hasV, synced, alive, win, adm, unl, nmin>>
     \/ /\ e.e = "frame" /\ e.lane \in VLanes /\ e.kind = "event"
        /\ LET r == e.r  l == e.lane IN
           IF ~open[r][l]
-            THEN UNCHANGED <<lastPos, lastV, hasV>>     \* outside a link: C04's business, not C01's
+            THEN UNCHANGED <<lastPos, lastV, hasV, unl, nmin>>     \* outside a link: C04's business, not C01's
             ELSE /\ ~Has(e, "bad")                      \* never invented: an integer the lane held ...
                  /\ LET p == Match(l, lastPos[r][l], e.v) IN
                     /\ p > 0                            \* ... at or after the previous one (never reordered)
                     /\ lastPos' = [lastPos EXCEPT ![r][l] = p]
                  /\ lastV' = [lastV EXCEPT ![r][l] = e.v]
                  /\ hasV' = [hasV EXCEPT ![r][l] = TRUE]
-       /\ UNCHANGED <<H, open, pend, changed, synced, alive, win, adm>>
+       /\ UNCHANGED <<H, open, pend, changed, synced, alive, win, adm, unl, nmin>>
     \/ /\ e.e = "frame" /\ e.lane \in VLanes /\ e.kind = "synced"
        /\ LET r == e.r  l == e.lane IN
           /\ (open[r][l] /\ win[r][l] > 0) =>
@@ -100,20 +107,24 @@ Step(e) ==
           /\ synced' = [synced EXCEPT ![r][l] = TRUE]
           /\ win' = [win EXCEPT ![r][l] = IF @ > 0 THEN @ - 1 ELSE 0]
           /\ adm' = adm
-       /\ UNCHANGED <<H, open, pend, lastPos, lastV, hasV, changed, alive>>
+       /\ UNCHANGED <<H, open, pend, lastPos, lastV, hasV, changed, alive, unl, nmin>>
     \/ /\ e.e = "frame" /\ e.lane \in VLanes /\ e.kind = "unlinked"
        \* the episode is over: its obligations end with it (positions stay monotone across episodes)
        /\ open' = [open EXCEPT ![e.r][e.lane] = FALSE]
-       /\ pend' = [pend EXCEPT ![e.r][e.lane] = FALSE]
+       /\ pend' = [pend EXCEPT ![e.r][e.lane] = (nmin[e.r][e.lane] > 0)]
+       /\ lastPos' = IF nmin[e.r][e.lane] > 0 THEN [lastPos EXCEPT ![e.r][e.lane] = IF @ > nmin[e.r][e.lane] THEN @ ELSE nmin[e.r][e.lane]]
+                      ELSE lastPos
+       /\ unl' = [unl EXCEPT ![e.r][e.lane] = FALSE]
+       /\ nmin' = [nmin EXCEPT ![e.r][e.lane] = 0]
        \* (a sync requested after the unlink request is answered after this frame: its window stays open)
        /\ win' = win
        /\ hasV' = [hasV EXCEPT ![e.r][e.lane] = FALSE]
        /\ changed' = [changed EXCEPT ![e.r][e.lane] = FALSE]
        /\ synced' = [synced EXCEPT ![e.r][e.lane] = FALSE]
-       /\ UNCHANGED <<H, lastPos, lastV, alive, adm>>
+       /\ UNCHANGED <<H, lastV, alive, adm>>
     \/ /\ e.e = "gone"
        /\ alive' = [alive EXCEPT ![e.r] = FALSE]
-       /\ UNCHANGED <<H, open, pend, lastPos, lastV, hasV, changed, synced, win, adm>>
+       /\ UNCHANGED <<H, open, pend, lastPos, lastV, hasV, changed, synced, win, adm, unl, nmin>>
     \/ /\ e.e = "quiescent"
        \* never stale: a drained, linked remote that saw the lane change after its link, or synced,
        \* holds the lane's current value
@@ -121,7 +132,7 @@ Step(e) ==
              LET r == e.drained[k] IN
              (alive[r] /\ open[r][l] /\ (changed[r][l] \/ synced[r][l]))
                 => (hasV[r][l] /\ lastV[r][l] = Cur(l))
-       /\ UNCHANGED <<H, open, pend, lastPos, lastV, hasV, changed, synced, alive, win, adm>>
+       /\ UNCHANGED <<H, open, pend, lastPos, lastV, hasV, changed, synced, alive, win, adm, unl, nmin>>
 
 TraceNext == /\ i <= Len(Rec)
              /\ Step(Rec[i])
